@@ -166,6 +166,16 @@ def gen_model(rng, want_mc=False):
     pnames = rng.sample(PORT_NAMES, rng.randint(0 if not want_mc else 1, 5) if rng.random() < 0.9 else rng.randint(6, 9))
     # the multi-client port sits at a random position among the ports (first, last, alone, ...)
     mc_i = rng.randrange(len(pnames)) if (want_mc and pnames) else None
+    if want_mc and len(pnames) >= 2 and rng.random() < 0.25:
+        # port names that contain one another (`api`/`apix`, `le`/`led`): the multi-client port's name extends, or is
+        # extended by, the name of another port
+        a, b = rng.choice([('api', 'apix'), ('ap', 'api'), ('le', 'led'), ('p', 'p2'), ('x', 'xExclusive')])
+        if rng.random() < 0.3:
+            a, b = b, a
+        other = rng.choice([k for k in range(len(pnames)) if k != mc_i])
+        pnames = [n for n in pnames if n not in (a, b)] + ['zz1', 'zz2']
+        pnames = pnames[:max(mc_i, other) + 1] if len(pnames) > max(mc_i, other) else pnames
+        pnames[mc_i], pnames[other] = b, a
     # port shape: sometimes provides-heavy (several MTS provides ports next to the multi-client one)
     p_prov = rng.choice([0.5, 0.5, 0.85, 0.15])
     for i, pn in enumerate(pnames):
@@ -308,7 +318,7 @@ def gen_case(rng, want_mc=None):
            'encapsulee': info['comp_fqn'], 'ports': ports, 'multiclient': mc,
            'origin': rng.choice(['create', 'import']),
            'copyright': rng.choice(COPYRIGHTS),
-           'prefix': rng.choice([None, None, ['Pfx'], ['A', 'B'], ['A_B'], ['Project'], ['Hal', 'X'], ['B']]),   # incl. ids that also name an inner model namespace
+           'prefix': rng.choice([None, None, ['Pfx'], ['A', 'B'], ['A_B'], ['Project'], ['Hal', 'X'], ['B'], ['Dzn'], ['My', 'Dzn']]),   # incl. ids that also name an inner model namespace
            'creator': rng.choice([None, None, 'ABC\nDEF\n', 'tool v1', '// by\ntool();', ''])}
     return {'op': 'build', 'src': strip_private(elems), 'ast': M.enc_root(strip_private(elems)), 'cfg': cfg,
             'expect': 'ok', '_info': info}
